@@ -166,6 +166,17 @@ def h_concrete_func_scales(ctx):
                 fx *= abs(np.polynomial.chebyshev.chebval(xi, c))
                 fmax *= np.max(np.abs(np.polynomial.chebyshev.chebval(xs, c)))
             ok_max = ok_max and fx >= fmax * (1 - 1e-6)
+    # even factors whose modulus peaks in the centre (a derivative root exactly at 0)
+    for A in ([np.array([1., 0., -0.8]).reshape(1, 3, 1), np.array([0.3, 1., 0.2]).reshape(1, 3, 1)],
+              [np.array([1., 0., -0.8]).reshape(1, 3, 1), np.array([-1., 0., 0.9, 0., 0.05]).reshape(1, 5, 1)]):
+        for k in (1, 3, 10):
+            x = teneva.optima_func_tt_beam(A, k)
+            ok_cube = ok_cube and bool(np.all(np.abs(x) <= 1.))
+            fx, fmax = 1., 1.
+            for G, xi in zip(A, x):
+                fx *= abs(np.polynomial.chebyshev.chebval(xi, G[0, :, 0]))
+                fmax *= np.max(np.abs(np.polynomial.chebyshev.chebval(xs, G[0, :, 0])))
+            ok_max = ok_max and fx >= fmax * (1 - 1e-6)
     # critical points just outside the cube (the maximum over the cube is then at the nearest face)
     for cs in ([1 + 5e-5, 1.], [-1 - 2e-5, 0.3], [1 + 1e-6, -1 - 1e-6]):
         A = [np.array([10 - c * c - 0.5, 2 * c, -0.5]).reshape(1, 3, 1) for c in cs]
